@@ -7,6 +7,7 @@
     [follows_from] towards an arbitrary id (closed, unknown, or by coincidence that of an open span),
     and records / enters / exits / events / children on spans the layer filtered out. *)
 From TT Require Import Capture.LayerProofs Judge.C05C16Proofs.
+From TT Require Import Capture.HostileProofs Judge.Hostile.
 
 (** one capture layer: no callback panics, whatever the filter and whatever ids the Registry issued *)
 Theorem C16_capture_total :
@@ -84,3 +85,92 @@ Example C16_example :
   | _ => False
   end.
 Proof. vm_compute. repeat split; discriminate || reflexivity. Qed.
+
+(** ** Hostile renderings ([Capture/Hostile.v]): values whose [Debug] impl emits tracing events of its
+    own, or panics, while the capture layer renders it.
+
+    [hrun d ids hp]: the lock-level machine (acquisitions of the storage's write lock, poisoning,
+    re-entrancy guard of the default dispatcher) under discipline [d]; [RenderFirst] is the code
+    ([TracedValues::from_record(values)] before [self.lock()]), [LockFirst] the historical defect F10.
+    [hstorage_of x = Some st]: the guest ran to its end (panics caught at the top-level operation), no
+    deadlock, the lock neither held nor poisoned, and the storage is [st].
+    [flatten hp]: the quiet program [hp] must be captured as: the inner events a loud value emits
+    outside the guard just before the operation that renders it, an operation whose rendering panics
+    dropped; it is a well-formed program, so every theorem of C05 / C16 applies to it. *)
+
+(** with the render-before-lock discipline every hostile program is captured exactly as its
+    flattening, without deadlock, poisoning or an escaping panic *)
+Theorem C16_hostile_render_first_captures_flattened :
+  forall (ids : list N) (hp : hprog),
+    wf_hprog_b hp = true ->
+    hstorage_of (hrun RenderFirst ids hp) = storage_of (layer_run (fun _ => true) ids (flatten hp))
+    /\ exists st, hstorage_of (hrun RenderFirst ids hp) = Some st.
+Proof. exact render_first_captures_flattened. Qed.
+
+Theorem C16_hostile_flatten_wf :
+  forall hp : hprog, wf_hprog_b hp = true -> wf_prog_b (flatten hp) = true.
+Proof. exact flatten_wf. Qed.
+
+Theorem C16_hostile_flatten_single_threaded :
+  forall hp : hprog, wf_hprog_b hp = true -> single_threaded (flatten hp) = true.
+Proof. exact flatten_single_threaded. Qed.
+
+(** .. which is the storage the reference specification prescribes for the flattening *)
+Theorem C16_hostile_render_first_is_spec :
+  forall (ids : list N) (hp : hprog),
+    wf_hprog_b hp = true ->
+    hstorage_of (hrun RenderFirst ids hp) = Some (spec_storage (fun _ => true) ids (flatten hp)).
+Proof. exact render_first_is_spec. Qed.
+
+(** the lock-before-render discipline deadlocks: a record whose value emits an event while it is
+    rendered *)
+Theorem C16_lock_first_deadlocks_refuted :
+  exists ids hp, wf_hprog_b hp = true /\ hrun LockFirst ids hp = HDeadlock.
+Proof. exact lock_first_deadlocks. Qed.
+
+(** .. and poisons the storage: a record whose value panics while it is rendered, then an event *)
+Theorem C16_lock_first_poisons_refuted :
+  exists ids hp, wf_hprog_b hp = true /\ hstorage_of (hrun LockFirst ids hp) = None /\
+                 is_deadlock (hrun LockFirst ids hp) = false /\
+                 exists r st, hrun LockFirst ids hp = HOk (r, st, LPoisoned).
+Proof. exact lock_first_poisons. Qed.
+
+(** the judge of the correspondence run ([Judge/Hostile.v]) *)
+Theorem C16_hostile_judge_ok_on_model : forall hp ids,
+  wf_hprog_b hp = true ->
+  judge_hostile hp ids (hstorage_of (hrun RenderFirst ids hp)) = Agree.
+Proof. exact judge_hostile_agree_on_model. Qed.
+
+Theorem C16_hostile_judge_ok_whenever_corr : forall hp ids impl,
+  wf_hprog_b hp = true ->
+  option_eqb cstorage_eqb (hstorage_of (hrun RenderFirst ids hp)) impl = true ->
+  option_eqb cstorage_eqb (Some (spec_storage (fun _ => true) ids (flatten hp))) impl = true.
+Proof. exact judge_hostile_ok_of_corr. Qed.
+
+(** Non-vacuity: the two witnesses under the discipline of the code, and a program with depth (a
+    loud value inside an inner event is inert, a bomb inside an inner event takes the outer record with
+    it, loud and panicking event values, a span creation with a loud attribute) *)
+Example C16_hostile_example_loud :
+  wf_hprog_b hw_loud = true /\
+  hrun LockFirst [1; 2] hw_loud = HDeadlock /\
+  hstorage_of (hrun RenderFirst [1; 2] hw_loud) = Some (spec_storage (fun _ => true) [1; 2] (flatten hw_loud)) /\
+  p_ops (flatten hw_loud)
+  = [ (0, ONewSpan 0 PKCtx []); (0, OEvent 1 PKCtx [(0, Some (PStr "from a Debug impl"))]);
+      (0, ORecord 0 [(0, Some (PDebug "loud"))]) ]%nat.
+Proof. vm_compute. repeat split. Qed.
+
+Example C16_hostile_example_bomb :
+  wf_hprog_b hw_bomb = true /\
+  hstorage_of (hrun LockFirst [1; 2] hw_bomb) = None /\
+  hstorage_of (hrun RenderFirst [1; 2] hw_bomb) = Some (spec_storage (fun _ => true) [1; 2] (flatten hw_bomb)) /\
+  p_ops (flatten hw_bomb)
+  = [ (0, ONewSpan 0 PKCtx []); (0, OEvent 1 PKCtx [(0, Some (PStr "after the panic"))]) ]%nat.
+Proof. vm_compute. repeat split. Qed.
+
+Example C16_hostile_example_deep :
+  wf_hprog_b hw_deep = true /\
+  List.length (p_ops (flatten hw_deep)) = 9%nat /\
+  hstorage_of (hrun RenderFirst [1] hw_deep) = Some (spec_storage (fun _ => true) [1] (flatten hw_deep)) /\
+  judge_hostile hw_deep [1] (hstorage_of (hrun RenderFirst [1] hw_deep)) = Agree /\
+  judge_hostile hw_deep [1] None = PropFail.
+Proof. vm_compute. repeat split. Qed.
